@@ -310,7 +310,7 @@ RULE = ("each request (plain QUERY, RD random, with or without an OPT advertisin
 CHECK = {
     "property": "C04",
     "props": "Props/C04.v",
-    "theorems": ["c04_tc_on_the_octets", "c04_glue_complete_partial", "c04_optional_only_partial", "c04_response_within_limit", "c04_tc_shape", "c04_limit_value", "c04_udp_response_size", "c04_udp_identical_when_fits_partial", "c04_writer_limit_monotone", "c04_oracle_tc_shape",
+    "theorems": ["c04_tc_on_the_octets", "c04_only_optional_omitted_partial", "c04_glue_complete_partial", "c04_optional_only_partial", "c04_response_within_limit", "c04_tc_shape", "c04_limit_value", "c04_udp_response_size", "c04_udp_identical_when_fits_partial", "c04_writer_limit_monotone", "c04_oracle_tc_shape",
                  "c04_oracle_sizes_and_identity"],
     "allowed_axioms": [],
     "suites": [{
@@ -352,10 +352,16 @@ MANIFEST = {
                    "transport and limit; likewise for direct positive answers (c04_optional_only_partial: answer RRset, empty "
                    "authority, a sub-selection of the additional-section candidates) — so any two successful responses to the "
                    "same question differ only in which optional candidates are present (clause (iv) per response against "
-                   "canonical lists, for direct referrals and direct answers; CNAME chains and ANY not covered); and — clause (iii) for answers that end Ok — if the finished TCP message fits the UDP space the UDP "
+                   "canonical lists, for direct referrals and direct answers); and in general (c04_only_optional_omitted_partial, EVERY "
+                   "question incl. CNAME chains, ANY and negative answers): whenever the answering logic succeeds on the octet-level "
+                   "Writer, the decoded answer and authority sections are those of the idealised never-truncating run of the same "
+                   "logic — C05's object, equal to the RFC resolution algorithm `resolve` — and the decoded additional section is the "
+                   "idealised one minus some records of its optional tail (then only the OPT): this also closes C05's gap between "
+                   "the octet-level answer and `resolve`; and — clause (iii) for answers that end Ok — if the finished TCP message fits the UDP space the UDP "
                    "response is octet-identical (Writer limit-monotonicity + a relational lifting over the query model). PARTIAL: "
                    "clause (iii) for answers ending in SERVFAIL after partial writes (false there: known finding C04-1) and the "
-                   "clause (iv) beyond direct referrals / direct answers (after a CNAME chain, QTYPE ANY) are not theorems; they, and all clauses on the real octets, are decided on every run by the extracted relation pair_check "
+                   "the literal two-run comparison of clause (iv) (the theorems above characterise each response against the idealised "
+                   "answer instead) are not theorems; they, and all clauses on the real octets, are decided on every run by the extracted relation pair_check "
                    "on the real server's two responses to ~2.4k requests tuned to within +-40 octets of 512 and of random negotiated "
                    "sizes; both responses are also compared octet for octet with the model."),
     "level_note": ("Trusted: Coq kernel, extraction, fidelity of the hand-written models (octet-exact differential test on every run), "
